@@ -36,6 +36,15 @@ theorem rel_apply_parts (dec : EscDec) (ue : Bool) (r : RelSpec) (base : List St
       | none => .error .relIndex :=
   Lemmas.rel_apply_parts dec ue r base hneg
 
+/-- The library's negative index tokens in a base, stated outright (the draft has none; `rel_apply_parts` excludes them):
+    the offset is added to `-k` arithmetically, a result below zero is refused, otherwise the sum is the new token. -/
+theorem negative_base_offset (dec : EscDec) (ue : Bool) (pre : List Part) (k : Nat) (o : Int) (ho : o ≠ 0) :
+    applyTo dec ue ⟨0, o, .ptr []⟩ (pre ++ [.idx (-(k : Int))]) =
+      (if -(k : Int) + o < 0 then .error .relIndex
+       else fromParts dec false (pre ++ [.idx (-(k : Int) + o)])) := by
+  simp [applyTo, ho, intLike, List.getLast?_append, List.dropLast_append_of_ne_nil, bind, Except.bind, pure, Except.pure]
+  split <;> rfl
+
 /-- The forbidden applications are exactly: more steps than the base has tokens, an offset that makes
     the index negative, `#` at the root. -/
 theorem rel_refusals (r : RelSpec) (base : List Str) :
